@@ -98,11 +98,41 @@ func (s *scheduler) pick(exclude *G) *G {
 	if len(cands) == 0 {
 		return nil
 	}
-	if cx.SchedBudget >= 0 && len(cands) > 1 {
+	// Schedule exploration: every choice other than the default (lowest id first) costs one unit of
+	// the budget; when it is used up the default scheduler decides.
+	if cx.SchedBudget >= 0 && len(cands) > 1 && cx.preempts < cx.SchedBudget {
 		i := cx.Choose(len(cands), nil)
+		if i > 0 {
+			cx.preempts++
+		}
 		return cands[i]
 	}
 	return cands[0]
+}
+
+// visible is called before an operation that other goroutines can observe (channel operation,
+// sync.Map access, mutex). With a schedule budget it is a pre-emption point: the running
+// goroutine may be descheduled here in favour of any other runnable one.
+func (s *scheduler) visible() {
+	if cx.SchedBudget <= 0 || cx.preempts >= cx.SchedBudget || len(s.gs) < 2 {
+		return
+	}
+	me := s.cur
+	var cands []*G
+	for _, g := range s.gs {
+		if g != me && g.runnable() {
+			cands = append(cands, g)
+		}
+	}
+	if len(cands) == 0 {
+		return
+	}
+	i := cx.Choose(len(cands)+1, nil) // 0 = keep running
+	if i == 0 {
+		return
+	}
+	cx.preempts++
+	s.switchTo(cands[i-1])
 }
 
 // switchTo passes the baton to g and parks the current goroutine until it is woken.
@@ -246,6 +276,7 @@ type Chan struct {
 func makeChan(n int) *Chan { return &Chan{cap: n} }
 
 func chanSend(ch *Chan, v value) {
+	sched.visible()
 	if ch == nil {
 		sched.block("send on nil chan", func() bool { return false })
 	}
@@ -291,6 +322,7 @@ func (ch *Chan) take() (value, bool) {
 }
 
 func chanRecv(ch *Chan) (value, bool) {
+	sched.visible()
 	if ch == nil {
 		sched.block("recv on nil chan", func() bool { return false })
 	}
